@@ -50,7 +50,6 @@ from ..utils import (
     arg_value_error,
     arg_value_error_msg,
     arg_value_error_range,
-    cached,
     get_cell_size,
     get_fg_bg_colors,
     get_terminal_name_version,
@@ -1942,8 +1941,9 @@ class TextImage(BaseImage):
     # pixel-ratio == width / (height/2) == 2 * (width / height) == 2 * cell-ratio
     _pixel_ratio = property(lambda _: get_cell_ratio() * 2)
 
+    # Not cached separately: `get_terminal_name_version()` is and that cache (unlike one
+    # of this method) is invalidated by `term_image.enable_queries()`.
     @staticmethod
-    @cached
     def _is_on_kitty() -> bool:
         return get_terminal_name_version()[0] == "kitty"
 
